@@ -51,8 +51,9 @@ def run(tier):
     v = vf.Verdict('C01', tier)
     vf.build()
     quick = tier != 'thorough'
-    rnd = random.Random(vf.seed())
-    ss = list(scripts(rnd, quick))
+    ss = []
+    for rnd in vf.rounds(tier, 4):
+        ss += list(scripts(rnd, quick))
     vf.trace_flow(v, 'RegTableTrace.tla', 'RegTableTrace.cfg', 'regtab', ss, 'sg')
     nsweeps = sum(1 for s in ss for l in s if l.startswith('sweep16'))
     v.cov['evaluations'] += 65536 * nsweeps
